@@ -236,6 +236,7 @@ def run(ctx):
     tokscan.check(db, rep, "D9-TOKENIZER", where)
     d10_checker_readonly(db, rep)
     d11_valid_index_accepted(db, rep)
+    d12_const_name_kept(db, rep)
 
     # ---- D4: the synthetic name of an inline literal identifies the literal ----------------------------
     # orc_program_append_str_n finds operands BY NAME.  The name made up for an inline literal must therefore be an
